@@ -218,3 +218,111 @@ mod proofs {
         kani::cover!(true, "completed");
     }
 }
+
+/// Registry level, two real threads (Lal-Reps): thread 0 removes the first of
+/// three actions of a signal with the real `unregister`, thread 1 receives the
+/// signal (real dispatcher) at any instant.  Time = (round, thread).
+///  C01: no invocation of the removed action ends after `unregister` returned;
+///       no action is invoked after what it captured was released; the removed
+///       action is released exactly once, by thread 0, outside any delivery.
+///  C02: the delivery runs the old list or the new one, in order - no mixture.
+pub const E_RUNS_AFTER_RETURN: u32 = vshim::eh(6);
+pub const E_MIXTURE: u32 = vshim::eh(7);
+#[allow(non_snake_case)]
+pub mod R {
+    pub static mut t_ret: usize = usize::MAX; // now() at which the removal returned
+    pub static mut removed_arc: usize = usize::MAX;
+}
+pub fn timed_action(tag: u8, arc: usize) {
+    use libc::vshim::sync::ARCS;
+    unsafe {
+        if arc < 6 && ARCS::released[arc] > 0 && ARCS::released_at[arc] < now() {
+            flag(E_UAF);
+        }
+    }
+    hit(tag);
+    vshim::sys_point(); // the action takes time
+    unsafe {
+        if arc < 6 && ARCS::released[arc] > 0 && ARCS::released_at[arc] < now() {
+            flag(E_UAF);
+        }
+        if arc == R::removed_arc && R::t_ret != usize::MAX && now() > R::t_ret {
+            flag(E_RUNS_AFTER_RETURN);
+        }
+    }
+}
+
+#[cfg(kani)]
+mod proofs_registry {
+    use super::*;
+    use libc::vshim::sync::ARCS;
+    use signal_hook_registry::{register, unregister};
+
+    #[kani::proof]
+    #[kani::stub(alloc::alloc::dealloc_nonnull, noop_dealloc)]
+    #[kani::unwind(8)]
+    pub fn c01_lr_registry_delivery_vs_unregister() {
+        // (pointer words must be mirrored into the round-0 memory while the state is
+        // built sequentially, or the LR part would start from the empty registry)
+        unsafe { vshim::ST::mirror_ptrs = true };
+        reg::init_globals();
+        let sa = libc::SIGUSR1;
+        let a0 = unsafe { ARCS::next };
+        let a = ok(unsafe { register(sa, move || timed_action(1, a0)) });
+        let b = ok(unsafe { register(sa, move || timed_action(2, a0 + 1)) });
+        let c = ok(unsafe { register(sa, move || timed_action(3, a0 + 2)) });
+        assert!(a.is_some() && b.is_some() && c.is_some() && unsafe { ARCS::next } == a0 + 3, "C01: registering a catchable signal failed");
+        unsafe { R::removed_arc = a0 };
+        vshim::set_mode_lr(3, 3, 0);
+        vshim::thread_start(0);
+        let r = unregister(a.unwrap());
+        unsafe {
+            R::t_ret = now();
+            if !r || ARCS::released[a0] != 1 {
+                flag(E_NOT_FREED);
+            }
+            if ARCS::released[a0] > 1 || ARCS::released[a0 + 1] != 0 || ARCS::released[a0 + 2] != 0 {
+                flag(E_DOUBLE);
+            }
+        }
+        let r0 = vshim::round();
+        vshim::thread_start(1);
+        vshim::sys_point(); // the kernel picks its moment
+        clear_log();
+        deliver(sa);
+        let r1 = vshim::round();
+        unsafe {
+            let n = L::n;
+            let old = n == 3 && L::log[0] == 1 && L::log[1] == 2 && L::log[2] == 3;
+            let new = n == 2 && L::log[0] == 2 && L::log[1] == 3;
+            if !old && !new {
+                flag(E_MIXTURE);
+            }
+            // a delivery that started after the removal returned runs the new list
+            if ARCS::released[a0] > 0 && (ARCS::released_by[a0] != 0 || ARCS::released_in_delivery[a0]) {
+                flag(E_IN_HANDLER);
+            }
+        }
+        let bad = vshim::lr_violation();
+        let e = vshim::errors();
+        if kani::any::<bool>() {
+            assert!(!vshim::lr_violation_of(E_UAF), "C01: a delivery invoked an action after what it captured had been released");
+            assert!(!vshim::lr_violation_of(E_RUNS_AFTER_RETURN), "C01: an invocation of the removed action was still in progress, or started, after unregister had returned");
+            assert!(!vshim::lr_violation_of(E_NOT_FREED), "C01: unregister returned but the removed action was not released exactly once");
+            assert!(!vshim::lr_violation_of(E_DOUBLE), "C01: an action was released twice, or one that was not removed was released");
+            assert!(!vshim::lr_violation_of(E_IN_HANDLER), "C01: the removed action was released by the delivering thread / inside a signal handler");
+            assert!(!vshim::lr_violation_of(E_MIXTURE), "C02: a delivery overlapping unregister ran neither the old nor the new action list of its signal");
+            assert!(!bad, "C01: another error flag is set (see shim error codes)");
+        } else {
+            kani::assume(vshim::consistent());
+            assert!(e & E_UAF == 0, "C01: [replayable] a delivery invoked an action after what it captured had been released");
+            assert!(e & E_RUNS_AFTER_RETURN == 0, "C01: [replayable] an invocation of the removed action was still in progress, or started, after unregister had returned");
+            assert!(e & E_NOT_FREED == 0, "C01: [replayable] unregister returned but the removed action was not released exactly once");
+            assert!(e & E_IN_HANDLER == 0, "C01: [replayable] the removed action was released by the delivering thread / inside a signal handler");
+            assert!(e & E_MIXTURE == 0, "C02: [replayable] a delivery overlapping unregister ran neither the old nor the new action list of its signal");
+        }
+        kani::cover!(r0 >= 1 && r1 >= 1 && vshim::consistent(), "delivery overlapped the unregister (both threads ran in more than one round)");
+        kani::cover!(unsafe { L::n == 3 } && r0 >= 1 && vshim::consistent(), "an overlapping delivery ran the old list");
+        kani::cover!(unsafe { L::n == 2 } && vshim::consistent(), "a delivery ran the new list");
+    }
+}
